@@ -8,7 +8,7 @@ use serde::{Deserialize, Serialize};
 use serde_json::{json, Value};
 
 use crate::chain::{Chain, Entry, Event, Fault, FaultMode, Frame, Kind, SinkAct, TxResult};
-use crate::paging::{check_paging, LIMITS};
+use crate::paging::{check_paging, check_stale_cursors, LIMITS};
 use crate::rawkeys;
 use crate::snaps::{snap_cw20, Cw20Snap, Snap};
 use crate::trace::{coins, Step, Violation};
@@ -1100,6 +1100,20 @@ impl WorldA {
         if expected.len() == 30 || expected.len() == 10 {
             self.meter.hit("c20_listing_exactly_on_boundary");
         }
+        let r = r.and_then(|_| {
+            // cursors that are valid addresses without a balance row
+            let stale: Vec<String> = (0..4).map(|i| crate::util::addr_of(&format!("nobody{}", i))).collect();
+            check_stale_cursors::<String, String>(
+                &expected,
+                &|cur, lim| {
+                    chain
+                        .query::<cw20::AllAccountsResponse>("token", &json!({"all_accounts":{"start_after":cur,"limit":lim}}))
+                        .map(|r| r.accounts)
+                },
+                &|i| i.clone(),
+                &stale,
+            )
+        });
         if let Err((c, d)) = r {
             self.viol(out, "C20", &format!("cw20-all-accounts/{}", c), json!({"list":"all_accounts"}), d);
         }
